@@ -188,6 +188,20 @@ func (m *Machine) intrinsic(name string, fn *ssa.Function, args []Value) (Value,
 			}
 		}
 		return tt.Const(64, ^uint64(0)), true
+	case "internal/bytealg.Compare", "internal/bytealg.CompareString", "bytes.Compare", "strings.Compare":
+		a, b := Str{m.cellsOf(args[0])}, Str{m.cellsOf(args[1])}
+		one, zero, neg := tt.Const(64, 1), tt.Const(64, 0), tt.Const(64, ^uint64(0))
+		return tt.Ite(m.strLess(a, b), neg, tt.Ite(m.strEq(a, b), zero, one)), true
+	case "internal/bytealg.MakeNoZero":
+		n := m.term(args[0])
+		if !n.IsConst() {
+			m.end("unsupported", "bytealg.MakeNoZero with a symbolic length")
+		}
+		nd := m.newNode(int(n.val))
+		for i := range nd.elems {
+			nd.elems[i] = tt.Const(8, 0)
+		}
+		return Slice{nd, 0, int(n.val), int(n.val)}, true
 	case "internal/bytealg.CountString", "internal/bytealg.Count":
 		cells := m.cellsOf(args[0])
 		c := m.term(args[1])
